@@ -42,6 +42,7 @@ type StoreWorld struct {
 	Node      string
 	Stats     map[string]int
 	MmapNote  bool
+	everOpened []*ProxyStore // every store of the run, for the clean-up in Uninstall
 }
 
 func NewStoreWorld() *StoreWorld {
@@ -70,13 +71,27 @@ func (w *StoreWorld) Install() {
 		if path != "" {
 			w.open[path] = p
 		}
+		w.everOpened = append(w.everOpened, p)
 		w.Stats["open"]++
 		w.mu.Unlock()
 		return p, nil
 	}
 }
 
-func (w *StoreWorld) Uninstall() { diskstore.SimOpenHook = nil }
+// Uninstall ends a run: the seam is removed and every store the run left open (its
+// process was killed, or the run was cut short by a violation) gives back its file
+// descriptor and memory map; no task of the finished run will ever be scheduled again.
+func (w *StoreWorld) Uninstall() {
+	diskstore.SimOpenHook = nil
+	w.mu.Lock()
+	for _, p := range w.everOpened {
+		if !p.closed {
+			diskstore.SimAbandon(p.inner)
+		}
+	}
+	w.everOpened = nil
+	w.mu.Unlock()
+}
 
 type DoubleOpenError struct{ Path string }
 
